@@ -405,8 +405,9 @@ class Exec:
             if items is not None and spec is None:
                 return self.unroll(st, p, [VTuple([VInt(i + it.start), x]) for i, x in enumerate(items)], fr)
             if spec is None: raise Unsupported(f'enumerate loop without invariant at line {st.lineno}')
-            mk_elem = lambda k: (VTuple([VInt(k), spec.elem(S, k)]), [])
-            length = None
+            mk_elem = lambda k: [(VTuple([VInt(k + it.start), e]), f) for e, f in _alts(spec.elem(S, k))]
+            cell = p.cell(it.inner.oid) if isinstance(it.inner, VRef) else {}
+            length = cell.get('len')
         else:
             items = self.items_of(it, p)
             if items is None: raise Unsupported(f'loop over {it!r} at line {st.lineno}')
@@ -424,8 +425,15 @@ class Exec:
         for lab, g in _inv_parts(spec.inv(S, fr.argns, ns0, zero)):
             self.oblige(f'loop[{hdr}]/inv_entry:{lab}', p.pc, g, kind='loop', label=lab)
         assigned = _assigned_names(st)
+        appended = _appended_names(st)
         def havoc(base):
             q = base.fork()
+            for nme in appended:
+                v = q.env.get(nme)
+                if isinstance(v, VRef) and v.cls == 'list':
+                    L = fresh(I, nme + '_len')
+                    q.heap[v.oid] = {'len': L, 'log': [], 'havocked': True}
+                    q.pc = q.pc + [L >= 0]
             for nme in assigned:
                 if nme in spec.shapes: q.env[nme] = self.fresh_value(q, spec.shapes[nme], nme)
                 elif nme in q.env and not isinstance(q.env[nme], (VFunc, VClass)):
@@ -436,11 +444,14 @@ class Exec:
         # --- 2. arbitrary iteration
         k = fresh(I, 'iter')
         q = havoc(p)
-        elem, facts = mk_elem(k)
-        q.pc = q.pc + [k >= 0] + facts + [g for _, g in _inv_parts(spec.inv(S, fr.argns, Namespace(q.env, q), k))]
+        alts = mk_elem(k)
+        if not isinstance(alts, list): alts = [alts]
+        q0 = q
+        q0.pc = q0.pc + [k >= 0] + ([k < length] if length is not None and isinstance(it, VEnum) else []) + [g for _, g in _inv_parts(spec.inv(S, fr.argns, Namespace(q0.env, q0), k))]
         outs = []
-        if self.feasible(q.pc):
-            bres = [(q, None)]
+        for elem, facts in alts:
+            q = q0.fork(); q.pc = q.pc + facts
+            if not self.feasible(q.pc): continue
             bres = self.bind(st.target, elem, q, fr)
             for q1, r in bres:
                 if isinstance(r, Raised): outs.append(('exc', q1, r.exc)); continue
@@ -448,6 +459,10 @@ class Exec:
                     if kind in ('fall', 'cont'):
                         for lab, g in _inv_parts(spec.inv(S, fr.argns, Namespace(r2.env, r2), k + 1)):
                             self.oblige(f'loop[{hdr}]/inv_preserved:{lab}', r2.pc, g, kind='loop', label=lab, trace=r2.trace)
+                        if spec.body_post is not None:
+                            mark = len(S.pending)
+                            for lab, g in _inv_parts(spec.body_post(S, fr.argns, Namespace(r2.env, r2), k, elem)):
+                                self.oblige(f'loop[{hdr}]/each_iteration:{lab}', r2.pc, g, kind='loop', label=lab, trace=r2.trace, _mark=mark)
                     elif kind == 'brk':
                         outs.append(('fall', r2, None))
                     else:
@@ -624,7 +639,12 @@ class Exec:
         if isinstance(e, ast.Constant):
             return [(p, self.lift_const(e.value))]
         if isinstance(e, ast.Name):
-            v = self.lookup(e.id, p, fr)
+            try:
+                v = self.lookup(e.id, p, fr)
+            except Unsupported:
+                if e.id in fr.local_names:       # a local that is not bound on this path: CPython raises UnboundLocalError
+                    return [(p, Raised(VExc('UnboundLocalError', where=e.lineno)))]
+                raise
             if isinstance(v, VOpt) and e.id in p.env:
                 outs = []
                 for q, d in self.split_opt(p, v):
@@ -1253,6 +1273,7 @@ class Frame:
         self.qual, self.fn, self.mod, self.contract, self.closure = qual, fn, mod, contract, closure
         self.handling = None
         self.argns = None
+        self.local_names = set(_assigned_names(fn))
         rets = sorted((n for n in ast.walk(fn) if isinstance(n, ast.Return)), key=lambda n: (n.lineno, n.col_offset))
         self.ret_ids = {id(n): i + 1 for i, n in enumerate(rets)}
         self._loops = {}
@@ -1265,6 +1286,20 @@ class Frame:
         if self.contract is None: return None
         ordn = [id(n) for n in self._loops[hdr]].index(id(st))
         return self.contract.loop(hdr, ordn)
+
+
+def _alts(x):
+    """loop element alternatives: a value, or a list of (value, [facts])"""
+    if isinstance(x, list): return x
+    return [(x, [])]
+
+
+def _appended_names(st):
+    out = []
+    for n in ast.walk(st):
+        if isinstance(n, ast.Call) and isinstance(n.func, ast.Attribute) and n.func.attr in ('append', 'extend', 'insert') and isinstance(n.func.value, ast.Name):
+            if n.func.value.id not in out: out.append(n.func.value.id)
+    return out
 
 
 def _inv_parts(inv):
